@@ -34,7 +34,10 @@ Shaped == { F1(1, L(TI32, << Num(TI32, 1) >>)),                       \* Generat
             F1(5, L(TStruct, << ES >>)),                               \* Service.functions / Function.exceptions
             F1(3, M(TBinary, TBinary, <<>>)),                          \* annotations
             F1(8, M(TBinary, TBinary, <<>>)),
-            F1(2, F1(3, L(TStruct, <<>>))) }                           \* nested: Argument.type ...
+            F1(2, F1(3, L(TStruct, <<>>))),                            \* nested: Argument.type ...
+            \* containers whose items all have a fixed width are skipped by count * width: the count alone decides
+            F1(4, M(TI64, TI64, <<>>)), F1(4, M(TI32, TI32, << [k |-> Num(TI32, 1), v |-> Num(TI32, 2)] >>)),
+            F1(4, M(TI64, TI32, <<>>)), F1(4, L(TI64, <<>>)), F1(4, [t |-> TSet, et |-> TI32, e |-> <<>>]) }
 
 Kinds == {"bare", "strict", "legacy", "frame", "shaped"}
 Name3 == <<102, 111, 111>>
@@ -45,6 +48,8 @@ Msg(kind, body) ==
     [] kind = "legacy" -> EncEnv([fr |-> "legacy", name |-> Name3, ty |-> 1, seq |-> 7, body |-> body])
     [] kind = "frame"  -> FrameBytes(Enc(body))
 
+\* counts whose product with an item width of 8, 12 or 16 bytes is a multiple of 2^32 (or just above one)
+WrapLens == { <<16, 0, 0, 0>>, <<32, 0, 0, 0>>, <<64, 0, 0, 0>>, <<16, 0, 0, 1>>, <<85, 85, 85, 86>> }
 BigLens == { <<0, 1, 0, 0>>, <<0, 16, 0, 1>>, <<1, 0, 0, 0>>, <<15, 255, 255, 255>>, <<127, 255, 255, 255>>, <<255, 255, 255, 255>> }
 
 VARIABLES kind, msg, inflated
@@ -54,7 +59,7 @@ Init == /\ kind \in Kinds
         /\ \E b \in (IF kind = "shaped" THEN Shaped ELSE BodiesC) : msg = Msg(kind, b)
         /\ inflated = 0
 Inflate == /\ inflated < 1
-           /\ \E i \in 1..(Len(msg) - 3), big \in BigLens :
+           /\ \E i \in 1..(Len(msg) - 3), big \in (IF kind = "shaped" THEN BigLens \cup WrapLens ELSE BigLens) :
                  msg' = SubSeq(msg, 1, i - 1) \o big \o SubSeq(msg, i + 4, Len(msg))
            /\ inflated' = inflated + 1
            /\ UNCHANGED kind
